@@ -2,6 +2,8 @@ mod debug_tree;
 mod include;
 mod decode;
 mod itemlist;
+mod lexer;
+mod loadop;
 mod modelop;
 mod model;
 mod placement;
@@ -21,6 +23,8 @@ fn main() {
         "decode-replay" => decode::replay(&args),
         "decode-fuzz" => decode::fuzz(&args),
         "include-op" => include::run(&args),
+        "lexer-replay" => lexer::replay(&args),
+        "load-op" => loadop::run(&args),
         "model-op" => modelop::run(&args),
         "placement-replay" => placement::replay(&args),
         "placement-record" => placement::record(&args),
